@@ -111,8 +111,28 @@ def showWsMsg (m : WsMsg) : String :=
   toString m.typ ++ "." ++ b2s m.fromClient ++ "." ++ showBytes m.content ++ "." ++ toString m.ts ++ "." ++
     b2s m.dropped ++ "." ++ b2s m.injected
 
+def tmsg? (s : String) : Option TMsg :=
+  match s.splitOn "." with
+  | [fc, c, ts] => match bool? fc, hexOr c, ts.toNat? with
+    | some fc, some c, some ts => some ⟨fc, c, ts⟩
+    | _, _, _ => none
+  | _ => none
+def showTMsg (m : TMsg) : String := b2s m.fromClient ++ "." ++ showBytes m.content ++ "." ++ toString m.ts
+
+def dnsMsg? (s : String) : Option DnsMsg :=
+  match s.splitOn "/" with
+  | [a, qs] => match atoms? a, (splitNE qs ";").mapM atoms? with
+    | some a, some qs => some ⟨a, qs⟩
+    | _, _ => none
+  | _ => none
+def showDnsMsg (m : DnsMsg) : String := showAtoms m.atoms ++ "/" ++ ";".intercalate (m.questions.map showAtoms)
+
 def comp? (s : String) : Option Comp :=
   match s.toList with
+  | 'T' :: r => ((splitNE (String.ofList r) ";").mapM tmsg?).map .tmsgs
+  | 'D' :: r =>
+    let r := String.ofList r
+    if r = "~" then some (.dns none) else (dnsMsg? r).map fun m => .dns (some m)
   | 'C' :: r => (atoms? (String.ofList r)).map .conn
   | 'E' :: r =>
     let r := String.ofList r
@@ -154,6 +174,9 @@ def showComp : Comp → String
   | .resp (some r) => "R" ++ showMsg r
   | .ws none => "W~"
   | .ws (some w) => "W" ++ showAtoms w.atoms ++ "/" ++ ";".intercalate (w.messages.map showWsMsg)
+  | .tmsgs l => "T" ++ ";".intercalate (l.map showTMsg)
+  | .dns none => "D~"
+  | .dns (some m) => "D" ++ showDnsMsg m
 
 def showComps (l : List Comp) : String := "+".intercalate (l.map showComp)
 
@@ -183,7 +206,32 @@ def msgEdit? : List String → Option MsgEdit
     | _, _ => none
   | _ => none
 
+def dnsEdit? : List String → Option DnsEdit
+  | ["atom", k, a] => match k.toNat?, a.toNat? with
+    | some k, some a => some (.atom k a)
+    | _, _ => none
+  | ["qname", i, a] => match i.toNat?, a.toNat? with
+    | some i, some a => some (.qname i a)
+    | _, _ => none
+  | _ => none
+
 def edit? : List String → Option Edit
+  | ["msgs", "append", m] => (tmsg? m).map fun m => .msgs (.append m)
+  | ["msgs", "pop"] => some (.msgs .pop)
+  | ["msgs", "setc", i, c] => match i.toNat?, hexOr c with
+    | some i, some c => some (.msgs (.setContent i c))
+    | _, _ => none
+  | ["msgsrep", t] => match comp? t with
+    | some (.tmsgs l) => some (.msgsReplace l)
+    | _ => none
+  | "dreq" :: r => (dnsEdit? r).map .dreq
+  | "dresp" :: r => (dnsEdit? r).map .dresp
+  | ["dreqrep", d] => match comp? d with
+    | some (.dns (some m)) => some (.dreqReplace m)
+    | _ => none
+  | ["dresprep", d] => match comp? d with
+    | some (.dns m) => some (.drespReplace m)
+    | _ => none
   | ["conn", j, k, a] => match j.toNat?, k.toNat?, a.toNat? with
     | some j, some k, some a => some (.connField j k a)
     | _, _, _ => none
